@@ -44,7 +44,7 @@ Verdict runC13(const Case &cs) {
   struct Kept { yaep_tree_node *root; int epoch; std::set<Tr> den; bool ovf; long nTerm; std::set<void *> blocks; bool cost; bool one; };
   std::vector<Kept> kept;
   g_tree.reset();
-  yaep_verif.rec_limit = 20000;
+  yaep_verif.rec_limit = REC_LIMIT;
   for (auto &codes : cs.inputs) {
     ParseOpts po; po.keep_tracking = true; po.free_tree = false; po.den_limit = 2000;
     Outcome o = runParse(*b, codes, cf, po);
@@ -112,6 +112,68 @@ Verdict runC13(const Case &cs) {
   return v;
 }
 
+
+// ================================================================= C12 (rapidcheck side; the libFuzzer targets are in src/fuzz)
+Case genC12(Choices &c, int tier) {
+  Case cs;
+  cs.prop = "C12";
+  GramOpts o; o.ambiguityBias = 20; o.errorPct = 60;
+  if (tier) { o.maxT = 4; o.maxN = 5; o.extraRules += 2; }
+  GramDef gd;
+  gd.raw = genGrammar(c, o);
+  gd.strict = c.flip();
+  if (!classify(gd.raw, gd.strict).empty() && classify(gd.raw, !gd.strict).empty()) gd.strict = !gd.strict;
+  cs.grams.push_back(gd);
+  Gram g;
+  if (!toGram(gd.raw, g) || !classify(gd.raw, gd.strict).empty()) return cs;
+  std::vector<int> ml = minLen(g);
+  // noisy inputs: several errors per input, up to 60 tokens (recovery search stress)
+  for (int k = 0; k < 2; k++) {
+    std::vector<int> w;
+    int parts = c.range(1, tier ? 10 : 6);
+    for (int p = 0; p < parts; p++) { std::vector<int> f = genInputIdx(c, g, ml, 8, c.upto(2)); w.insert(w.end(), f.begin(), f.end()); }
+    if (w.size() > 60) w.resize(60);
+    cs.inputs.push_back(toCodes(g, w));
+  }
+  cs.par["one"] = c.upto(2) - 1; cs.par["cost"] = c.flip(); cs.par["rec"] = c.chance(80); cs.par["la"] = c.range(-1, 3); cs.par["match"] = c.range(1, 6);
+  cs.par["freemode"] = c.upto(2);
+  return cs;
+}
+Verdict runC12(const Case &cs) {
+  Verdict v;
+  if (cs.grams.empty()) { v.st = V_DISCARD; return v; }
+  long base = g_lib.live_blocks;
+  Binding *b = newCBinding();
+  if (!b->create()) { v.fail("yaep_create_grammar returned NULL"); return v; }
+  int rc = defineGrammar(*b, cs.grams[0]);
+  if (strnlen(b->error_message(), 202) > 200) { v.fail("error message does not fit its buffer"); return v; }
+  if (rc != 0) { v.st = V_DISCARD; v.labels.insert("discard:definition-failed"); b->destroy(); delete b; return v; }
+  Conf cf; cf.la = (int)cs.P("la", 1); cf.one = (int)cs.P("one", 1); cf.cost = (int)cs.P("cost"); cf.rec = (int)cs.P("rec", 1); cf.match = (int)cs.P("match", 3); cf.freemode = (int)cs.P("freemode");
+  bool abnormal = false;
+  for (auto &codes : cs.inputs) {
+    yaep_verif.rec_limit = cs.P("reclimit", REC_LIMIT);
+    ParseOpts po; po.den_limit = 200;
+    Outcome o = runParse(*b, codes, cf, po);
+    v.parses++;
+    std::string where = " [" + cf.str() + " tokens=" + std::to_string(codes.size()) + "] got " + o.str().substr(0, 400);
+    if (o.hook.rec_explosion) {
+      abnormal = true;
+      if (kfListed("KF-C12-recovery-search-explosion")) { v.known = "KF-C12-recovery-search-explosion"; if (v.st == V_PASS) v.st = V_KNOWN; v.labels.insert("attributed:KF-C12-recovery-search-explosion"); continue; }
+      v.fail("error recovery examined more than " + std::to_string(cs.P("reclimit", REC_LIMIT)) + " alternatives for one syntax error (unbounded time and memory)" + where); return v;
+    }
+    if (o.rc == E_NOMEM && g_lib.cap_hits) { abnormal = true; v.labels.insert("memory-cap"); continue; }
+    if (o.rc != 0 && o.rc != E_BADTOK) { v.fail("yaep_parse returned " + std::to_string(o.rc) + where); return v; }
+    if (o.rc == 0 && o.root && !o.tree.ok) { v.fail("malformed tree: " + o.tree.problem + where); return v; }
+    if (o.t_bad_free) { v.fail("parse_free misuse: " + o.t_bad + where); return v; }
+    if (!o.errs.empty()) v.labels.insert("syntax-errors:" + std::string(o.errs.size() >= 3 ? ">=3" : "1-2"));
+    if (codes.size() >= 20 && o.errs.size() >= 2) v.nontrivial = true;
+    if (codes.size() >= 5) v.nontrivial = true;
+  }
+  b->destroy(); delete b;
+  if (!abnormal && g_lib.live_blocks != base) { v.fail("library holds " + std::to_string(g_lib.live_blocks - base) + " blocks after yaep_free_grammar"); return v; }
+  return v;
+}
+
 } // namespace
 
 extern const PropDef g_props_misc[] = {
@@ -123,6 +185,12 @@ extern const PropDef g_props_misc[] = {
      "releases every block once, terminal callback once per TERM node, library holds nothing afterwards. Non-trivial: shared node, or blocks "
      "released during the parse, or >= 2 trees alive.",
      20},
+    {"C12", genC12, runC12,
+     "rapidcheck side of C12 (the libFuzzer side is described in the evidence key `fuzz'): random CFG (60% with `error' rules) x 2 noisy inputs "
+     "of up to 60 tokens assembled from sentences, mutated sentences and random strings x arbitrary flag values x three allocator modes; oracle: "
+     "no sanitizer report, documented return codes only, well-formed tree, no parse_free misuse, bounded recovery search (hook H3 limit), no "
+     "memory held afterwards. Non-trivial: input of >= 5 tokens.",
+     40},
 };
 extern const int g_nprops_misc = sizeof(g_props_misc) / sizeof(g_props_misc[0]);
 
